@@ -44,6 +44,14 @@ def gen_cases(tier, seed):
             spec['plan']['faults'] = [{'at': f't0/s3:GetObject:{C * rng.randrange(0, 3)}#0', 'phase': 'body', 'bytes': rng.randrange(0, C),
                                        'kind': 'connreset', 'tag': 'FAULT-r'}]
         cases.append(spec)
+    # an object of MORE THAN 10,000 parts downloaded to a stream that cannot seek (the part limit of uploads does not exist for downloads:
+    # a range stays multipart_chunksize bytes, so the window still bounds the bytes held)
+    for i in range(1 if quick else 3):
+        C = 8
+        cases.append({'seed': rng.randrange(1 << 30), 'min_part': C, 'family': 'more-than-10000-ranges', 'wall_timeout': 200.0,
+                      'config': dict(multipart_threshold=C, multipart_chunksize=C, io_chunksize=8, max_request_concurrency=rng.choice([3, 4]),
+                                     max_in_memory_download_chunks=rng.choice([2, 3]), max_io_queue_size=1000),
+                      'transfers': [{'kind': 'download', 'dst': 'nonseekable', 'size': 10001 * C + rng.choice([0, 3])}], 'plan': {}})
     # more stream uploads than the submission stage has room for, with slow part requests: whoever calls upload() when the stage is full
     # waits - the streams are read by the submission threads only, so the buffered bytes stay within the bound
     for i in range(60 if quick else 600):
